@@ -104,6 +104,9 @@ def gen_tcp_script(rng, idx):
                                            rng.choice(["connect P0", "connect closed", "close self", "send self:8", "close ~%d" % rng.below(12), "stop"])))
         elif k < 98:
             ops.append("tcp stop")
+            if rng.chance(1, 2):
+                # restart: drain, start() again, keep going on the same engine (fd numbers are reused)
+                ops += ["tcp poll", "tcp poll", "tcp restart"]
         else:
             ops.append("tcp poll")
     for _ in range(rng.range(0, 3)):
@@ -155,6 +158,8 @@ def gen_udp_script(rng, idx):
                                            rng.choice(["connect P0", "via 0:P1", "close self", "send self:8", "close ~%d" % rng.below(12), "stop"])))
         elif k < 99:
             ops.append("udp stop")
+            if rng.chance(1, 2):
+                ops += ["udp poll", "udp poll", "udp restart"]
         else:
             ops.append("udp poll")
     ops.append("udp poll")
@@ -182,6 +187,26 @@ FIXED_CASES = [
     {"cat": "tcp-stepped", "id": "backpressure", "ops": ["tcp reset mwq=2", "peer listen", "tcp connect P0", "tcp poll", "peer accept 0", "tcp poll",
                                                          "tcp inject send EAGAIN", "tcp inject send EAGAIN", "tcp inject send EAGAIN", "tcp send ~0:10", "tcp send ~0:10", "tcp send ~0:10", "tcp poll", "tcp end"]},
     {"cat": "tcp-stepped", "id": "idle-gc", "ops": ["tcp reset idle=5", "peer listen", "tcp connect P0", "peer connect 0", "tcp poll", "tcp poll", "tcp clock 6000", "tcp gc", "tcp gc", "tcp end"]},
+]
+FIXED_CASES += [
+    # F35 witness: stop, start again, the new session reuses the fd number of a session the drain freed
+    {"cat": "tcp-stepped", "id": "F35-restart", "ops": ["tcp reset", "peer listen", "tcp connect P0", "tcp poll", "peer accept 0", "tcp poll", "tcp stop", "tcp poll", "tcp restart",
+                                                         "tcp connect P0", "tcp poll", "peer accept 0", "peer send 1 5", "tcp poll", "tcp poll", "peer fin 1", "tcp poll", "tcp end"]},
+    {"cat": "udp-stepped", "id": "restart-udp", "ops": ["udp reset", "peer udp", "udp connect P0", "udp poll", "udp send ~0:4", "udp poll", "udp stop", "udp poll", "udp restart",
+                                                         "udp connect P0", "udp poll", "udp send ~1:4", "udp poll", "peer ureply 0", "udp poll", "udp end"]},
+    # TLS: handshake, data both ways, hook faults, close_notify, garbage to a TLS listener, inline handshake timeout
+    {"cat": "tcp-stepped", "id": "tls-life", "ops": ["tcp reset mwq=2 tls=1 nl=1 ntl=1 hto=1000", "tcp connect E1t", "tcp poll", "tcp poll", "tcp poll", "tcp poll", "tcp poll",
+                                                      "tcp send ~0:20", "tcp poll", "tcp poll", "tcp send ~1:20", "tcp poll", "tcp poll", "tcp hookfail read", "tcp send ~0:5", "tcp poll", "tcp poll", "tcp poll",
+                                                      "tcp connect E1t", "tcp poll", "tcp poll", "tcp hookfail hsBefore", "tcp poll", "tcp poll", "tcp poll", "peer connect 1", "tcp poll", "peer send 0 40", "tcp poll",
+                                                      "tcp connect E1", "tcp poll", "tcp poll", "tcp send ~6:30", "tcp poll", "tcp poll", "tcp poll", "peer connect 1", "tcp poll", "tcp clock 2000", "tcp ev ~8 i",
+                                                      "tcp connect E1t", "tcp poll", "tcp poll", "tcp poll", "tcp poll", "tcp close ~9", "tcp poll", "tcp poll", "tcp poll", "tcp end"]},
+    {"cat": "tcp-stepped", "id": "tls-write-faults", "ops": ["tcp reset mwq=2 tls=1 nl=1 ntl=1", "tcp connect E1t", "tcp poll", "tcp poll", "tcp poll", "tcp poll", "tcp poll",
+                                                              "tcp hookfail write", "tcp send ~0:20", "tcp poll", "tcp poll", "tcp poll", "tcp connect E1t", "tcp poll", "tcp poll", "tcp poll", "tcp poll", "tcp poll",
+                                                              "tcp hookfail hsAfter", "tcp connect E1t", "tcp poll", "tcp poll", "tcp poll", "tcp poll", "tcp end"]},
+    {"cat": "udp-stepped", "id": "udp-listener-backpressure", "ops": ["udp reset mwq=2", "peer udp", "peer usend 0 0 4", "udp poll", "udp inject sendto EAGAIN", "udp inject sendto EAGAIN", "udp inject sendto EAGAIN",
+                                                                        "udp send ~0:4", "udp send ~0:4", "udp send ~0:4", "udp poll", "udp poll", "udp end"]},
+    {"cat": "tcp-stepped", "id": "write-stall-timer", "ops": ["tcp reset mwq=8 wst=300", "peer listen", "tcp connect P0", "tcp poll", "peer accept 0", "tcp poll", "tcp inject send EAGAIN", "tcp send ~0:10", "tcp poll",
+                                                               "tcp timer ~0:stall", "tcp poll", "tcp end"]},
 ]
 SLOW_CASE = {"cat": "tcp-stepped", "id": "dns-timeout", "ops": ["tcp reset", "peer listen", "tcp inject getaddrinfo SLOW", "tcp connect nameP0", "tcp poll", "tcp end"]}
 
@@ -310,7 +335,9 @@ def life_monitor(events, final_known=None, final_cur=None, ordered_ids=True, env
             if extra and extra.startswith("1"):
                 returned.append(sid)
                 allocs.append(sid)
-                if sid in closed:
+                # (threaded logs: the application thread logs the return AFTER connect() returned; the I/O thread may already have
+                #  processed and closed the request by then - only the single-threaded stepped log orders these two)
+                if sid in closed and ordered_ids:
                     bad.append("T3: connect() returned id %d after its close" % sid)
         elif k == "A":
             if sid in closed:
@@ -465,7 +492,8 @@ def check_stepped(ctx, hb, res, dist):
                 mism = (op, obs, mo, idx)
         fails = []
         if crash:
-            fails.append("T0: the engine crashed (%s) in `%s`" % (crash, c["ops"][min(len(lines), len(c["ops"])) - 1]))
+            first = next((i for i, l in enumerate(lines) if l.startswith("crash:")), len(lines) - 1)
+            fails.append("T0: the engine crashed (%s) in `%s`" % (crash, c["ops"][min(first, len(c["ops"]) - 1)]))
         fails += life_monitor(events, final_known, final_cur, ordered_ids=True, env_ok=not env_bad)
         if env_bad:
             ctx.extra["env_hypothesis_false_cases"] = ctx.extra.get("env_hypothesis_false_cases", 0) + 1
